@@ -29,6 +29,7 @@ CONSTANTS
     TrSet,          \* transpose choices offered (subset of BOOLEAN)
     DtSet,          \* data_type choices offered (subset of {"none", "f64", "f32", "i16", "i8"})
     SpSet,          \* spellings of the data_type option offered (subset of Spellings)
+    AfSet,          \* storage forms of the array handed to write offered (subset of ArrayForms)
     OwSet,          \* overwrite choices offered (subset of BOOLEAN)
     MaxDepth,
     EmitMode        \* "none" | "tr" | "hist"
@@ -130,14 +131,19 @@ Put(f, A, tr, ow, e) ==
 Spellings == {"type", "dtype", "name", "code", "char", "alias", "builtin"}
 SpChoices(dt) == IF dt = "none" THEN {"none"} ELSE {sp \in SpSet : sp = "builtin" => dt = "f64"}
 
-\* cryomap.write(mem, "<b>.<e>", transpose = tr, data_type = <dt spelled sp>, overwrite = ow)
-Write(b, e, tr, dt, sp, ow) ==
+\* The array handed to write is the same map however it lies in memory: C-ordered, Fortran-ordered, a non-contiguous
+\* view of a larger array, or read-only.  The storage form is a parameter of the call and immaterial for its outcome.
+ArrayForms == {"c", "f", "view", "ro"}
+
+\* cryomap.write(<mem stored as af>, "<b>.<e>", transpose = tr, data_type = <dt spelled sp>, overwrite = ow)
+Write(b, e, tr, dt, sp, af, ow) ==
     /\ "write" \in Acts
     /\ CanCast(mem, dt)
     /\ Put(FName(b, e), CastArr(mem, dt), tr, ow, e)
     /\ UNCHANGED mem
     /\ sp \in SpChoices(dt)
-    /\ Step([name |-> "write", file |-> FName(b, e), tr |-> tr, dt |-> dt, sp |-> sp, ow |-> ow])
+    /\ af \in AfSet
+    /\ Step([name |-> "write", file |-> FName(b, e), tr |-> tr, dt |-> dt, sp |-> sp, af |-> af, ow |-> ow])
 
 \* mem = cryomap.read("<b>.<e>", transpose = tr, data_type = dt)
 Read(b, e, tr, dt, sp) ==
@@ -190,8 +196,8 @@ Finish == /\ EmitMode = "hist"
           /\ Step([name |-> "end"])
 
 Next == \/ /\ d < Last
-           /\ \/ \E b \in Bases, e \in Exts, tr \in TrSet, dt \in DtSet, sp \in SpSet \cup {"none"}, ow \in OwSet :
-                     Write(b, e, tr, dt, sp, ow)
+           /\ \/ \E b \in Bases, e \in Exts, tr \in TrSet, dt \in DtSet, sp \in SpSet \cup {"none"}, af \in AfSet, ow \in OwSet :
+                     Write(b, e, tr, dt, sp, af, ow)
               \/ \E b \in Bases, e \in Exts, tr \in TrSet, dt \in DtSet, sp \in SpSet \cup {"none"} : Read(b, e, tr, dt, sp)
               \/ \E b \in Bases, inv \in BOOLEAN, ow \in OwSet, ob \in Bases \cup {"default"} :
                      \/ Convert("em2mrc", b, "em", "mrc", inv, ow, ob)
@@ -225,6 +231,10 @@ C11_SpellingIrrelevant ==
     [][/\ op'.name = "write" /\ res' = "ok" =>
               disk'[op'.file] = DocOf(CastArr(mem, op'.dt), op'.tr, IF op'.file \in {FName(b, "em") : b \in Bases} THEN "em" ELSE "mrc")
        /\ op'.name = "read" => mem' = CastArr(ArrOf(disk[op'.file], op'.tr), op'.dt)]_vars
+
+\* frame conditions: the in-memory map is an argument of write and of the conversions, never a result - only read and
+\* invert_contrast hand out a new one; and what they handed out stays what it was until the next of them
+C11_ArgumentsKept == [][op'.name \in {"write", "em2mrc", "mrc2em"} => mem' = mem]_vars
 
 \* what is written is what is read back with the same transposition flag: same shape, same (narrowed) voxels
 C11_RoundTrip ==
